@@ -472,7 +472,9 @@ impl RefM for RefTsi {
 		match den.gtf(0.0) {
 			Tri::Yes => num / den,
 			Tri::No => Ap::exact(0.0),
-			Tri::Maybe => Ap::from_interval(-1.0, 1.0),
+			// denominator not separated from zero by its own error bound: the quotient of two residues is not bounded by the
+			// mathematical range either (TSI(1,1) after a 0.03 move followed by a 9e-18 move: (m+r1)/(|m|+r2) = 1.5) => undefined
+			Tri::Maybe => Ap::undefined(),
 		}
 	}
 }
